@@ -74,6 +74,21 @@ MUTATIONS = [
      '            j2 = j**2 if j < n1d // 2 else (j - n1d) ** 2\n            for k in range(kzlen):\n                kmag2 = dtype(i2 + j2 + k**2)\n                if kmag2 > 0:\n                    invkmag2 = kmag2**-1\n                    mu2 = dtype(k**2) * invkmag2\n                else:\n                    mu2 = dtype(0.0)  # matches nbodykit\n\n                if kmag2 < kedges2[0]:'),
     ('c08-legendre-coefficient', 'C08', 'abacusnbody/analysis/power_spectrum.py',
      'sum *= dtype(0.5**n)', 'sum *= dtype(0.5 ** (n - 1))'),
+    # ---- C13
+    ('c13-shift-transposed', 'C13', 'abacusnbody/analysis/power_spectrum.py',
+     'field_fft[i, j, k] += field_shift_fft[i, j, k] * np.exp(', 'field_fft[i, j, k] += field_shift_fft[j, i, k] * np.exp('),
+    ('c13-cross-missing-conj', 'C13', 'abacusnbody/analysis/power_spectrum.py',
+     'raw_p3d = (np.conj(field_fft) * field2_fft).real', 'raw_p3d = (field_fft * field2_fft).real'),
+    ('c13-shared-accumulator', 'C13', 'abacusnbody/analysis/power_spectrum.py',
+     '        tid = numba.get_thread_id()\n        i2 = i**2 if i < (n1d + 1) // 2 else (i - n1d) ** 2\n        for j in range(n1d):\n            bk, bmu = 0, 0',
+     '        tid = 0\n        i2 = i**2 if i < (n1d + 1) // 2 else (i - n1d) ** 2\n        for j in range(n1d):\n            bk, bmu = 0, 0'),
+    ('c13-second-field-uncompensated', 'C13', 'abacusnbody/analysis/power_spectrum.py',
+     '            w2,\n            W,\n            compensated,\n            interlaced,', '            w2,\n            W,\n            False,\n            interlaced,'),
+    ('c13-narrow-stripes', 'C13', 'abacusnbody/analysis/tsc.py',
+     ['if npartition > 1 and npartition > n1d // 3 and nthread > 1:', 'npartition = min(n1d // 3, 2 * nthread)'],
+     ['if npartition > 1 and npartition > n1d // 2 and nthread > 1:', 'npartition = min(n1d // 2, 2 * nthread)']),
+    ('c13-narrow-default', 'C13', 'abacusnbody/analysis/tsc.py',
+     'npartition = min(n1d // 3, 2 * nthread)', 'npartition = min(n1d // 2, 2 * nthread)'),
     # ---- C17
     ('c17-shared-histogram', 'C17', 'abacusnbody/analysis/tsc.py',
      'counts[t, keys[i]] += 1', 'counts[0, keys[i]] += 1'),
@@ -104,9 +119,11 @@ def run_mutation(m, seconds=None):
         p = os.path.join(d, rel)
         with open(p) as fh:
             src = fh.read()
-        if src.count(old) < 1:
-            return name, pid, 'STALE (pattern not found)', 0.0
-        src = src.replace(old, new, 1)
+        olds, news = ([old], [new]) if isinstance(old, str) else (list(old), list(new))
+        for o, nw in zip(olds, news):
+            if src.count(o) < 1:
+                return name, pid, 'STALE (pattern not found)', 0.0
+            src = src.replace(o, nw, 1)
         with open(p, 'w') as fh:
             fh.write(src)
         env = dict(os.environ, VERIF_REPO=d, VERIF_EVIDENCE_DIR=os.path.join(d, 'evidence'))
